@@ -858,8 +858,53 @@ def lower_rules(ctx, rule):
             ctx.fail(rule, key, where(b, bi, t), "the pre-check of Text::lower is `%s`, not `is_uppercase`: titles whose capitals are all "
                      "non-ASCII are never lower-cased" % (S.show(e, cb)[:60] if e is not None else "?"),
                      {"witness": "Russian title 'Москва' stays capitalised; the query 'мосвка' no longer finds it"})
+    # polarity: the mapping runs on the side where an upper-case character WAS found
+    cfg = ctx.cfg(b)
+    maps_ = U.calls_named(b, "<impl char>::to_lowercase")
+    for bi, t in guards:
+        if not U.callee_is(t, "Iterator::any") or not maps_ or not ok:
+            continue
+        for sb, bl in enumerate(b.blocks):
+            tt = bl["term"]
+            if not tt or tt["k"] != "switch" or bl["cleanup"]:
+                continue
+            bt = U.bool_switch_targets(tt)
+            e = S.strip_refs(sy.operand(tt["discr"]))
+            neg = False
+            while e[0] == "unop" and str(e[1]).lower() == "not":
+                neg = not neg
+                e = S.strip_refs(e[2])
+            if not bt or not (e[0] == "call" and e[1].endswith("Iterator::any") and len(e) > 3 and e[3] == bi):
+                continue
+            mb = maps_[0][0]
+            on_true = cfg.path_exists(bt[1], mb) or bt[1] == mb
+            on_false = cfg.path_exists(bt[0], mb) or bt[0] == mb
+            if on_true != on_false and (on_true == neg):
+                ok = False
+                ctx.fail(rule, key, where(b, sb), "Text::lower maps the characters only when NO upper-case character is present (inverted pre-check)",
+                         {"witness": "query 'FOO' is not lower-cased"})
     if ok:
         ctx.ok(rule, key, b.where(), "Text::lower is skipped only when no character is upper-case (char::is_uppercase)", nontrivial=True)
+    # pre-check and mapping both range over the whole of self.chars (no skip / take / step_by / rev-limited sub-range)
+    key = "whole-text"
+    partial = []
+    for bi, t in b.calls():
+        if not (U.callee_is(t, "Iterator::any", "Iterator::all", "Iterator::find", "Iterator::position", "Iterator::next",
+                            "Iterator::for_each") and t["args"]):
+            continue
+        src_, st_ = U.chain(sy.operand(t["args"][0]))
+        p_ = U.field_path(src_)
+        if not (p_ and p_[2] and p_[2][-1] == "chars"):
+            continue
+        extra = [x[0] for x in st_ if x[0] not in ("iter", "iter_mut", "into_iter", "copied", "cloned", "by_ref", "enumerate", "map", "inspect")]
+        if extra:
+            partial.append((bi, t, extra))
+    if partial:
+        bi, t, extra = partial[0]
+        ctx.fail(rule, key, where(b, bi, t), "Text::lower looks at / maps only part of the text (`%s` on the character iterator)" % extra[0],
+                 {"witness": "query 'Foo' (only the first letter is upper-case) is not lower-cased and finds nothing"})
+    else:
+        ctx.ok(rule, key, b.where(), "pre-check and mapping range over all of self.chars")
     key = "mapping"
     maps = U.calls_named(b, "<impl char>::to_lowercase")
     src = U.field_path(sy.operand(maps[0][1]["args"][0])) if maps else None
